@@ -188,3 +188,138 @@ def check_forwarding(ctx: Context, rep, rule: str, funcs: list[FunctionInfo],
                         f"be forwarded to {b.qualname}; passed: "
                         f"{short(expr) if expr is not None else '<omitted, callee default>'}")
     return n_edges
+
+
+TAG = "caller-object"
+DEEP_COPIES = {"copy.deepcopy", "json.dumps", "pickle.dumps", "str", "repr",
+               "bool", "len", "hash", "isinstance", "id"}
+SHALLOW = {"dict", "copy.copy", "list", "tuple"}
+FRESH_LITERALS = (ast.Dict, ast.List, ast.Set, ast.Tuple)
+
+
+def escape_sinks(ctx: Context, fn: FunctionInfo, param: str, depth: int,
+                 seen: set[str], extra_copies: frozenset = frozenset()
+                 ) -> list[tuple[FunctionInfo, ast.AST, str]]:
+    """Sites where the object bound to `param` (or a shallow copy of it) is
+    stored into state that outlives the call."""
+    if fn.fq in seen or depth > 3:
+        return []
+    seen.add(fn.fq)
+    cfg = ctx.cfg(fn)
+
+    def hook(e, state, rec):
+        if isinstance(e, ast.Call):
+            names = ctx.names(fn, e)
+            if names & DEEP_COPIES or names & extra_copies or any(
+                    n.endswith((".deepcopy", ".dumps")) for n in names):
+                return EMPTY
+            if isinstance(e.func, ast.Attribute) and e.func.attr in (
+                    "model_copy", "copy") and any(
+                        k.arg == "deep" and isinstance(k.value, ast.Constant)
+                        and k.value.value is True for k in e.keywords):
+                return EMPTY
+            if names & SHALLOW or (isinstance(e.func, ast.Attribute) and
+                                   e.func.attr == "copy"):
+                inner = EMPTY
+                for a in list(e.args) + [k.value for k in e.keywords]:
+                    inner |= rec(a)
+                if isinstance(e.func, ast.Attribute):
+                    inner |= rec(e.func.value)
+                return frozenset(inner | {"shallow-copy"}) if inner else EMPTY
+        if isinstance(e, ast.Compare):
+            return EMPTY  # a comparison result does not alias its operands
+        if isinstance(e, ast.Dict) and any(k is None for k in e.keys):
+            inner = EMPTY
+            for v in e.values:
+                inner |= rec(v)
+            return frozenset(inner | {"shallow-copy"}) if inner else EMPTY
+        return None
+
+    tf = TagFlow(cfg, {param: frozenset({TAG})}, hook=hook)
+    fresh_locals = set()
+    for n in fn.body_nodes():
+        if isinstance(n, (ast.Assign, ast.AnnAssign)) and isinstance(
+                getattr(n, "value", None), FRESH_LITERALS):
+            tgts = n.targets if isinstance(n, ast.Assign) else [n.target]
+            for t in tgts:
+                if isinstance(t, ast.Name):
+                    fresh_locals.add(t.id)
+    out: list[tuple[FunctionInfo, ast.AST, str]] = []
+    for node in cfg.live_nodes():
+        a = node.ast
+        st = tf.at(node)
+        if node.kind == "stmt" and isinstance(
+                a, (ast.Assign, ast.AnnAssign, ast.AugAssign)):
+            val = getattr(a, "value", None)
+            if val is None:
+                continue
+            tags = tf.tags(val, st)
+            if TAG not in tags:
+                continue
+            tgts = a.targets if isinstance(a, ast.Assign) else [a.target]
+            for t in tgts:
+                if isinstance(t, (ast.Attribute, ast.Subscript)):
+                    root = t
+                    while isinstance(root, (ast.Attribute, ast.Subscript)):
+                        root = root.value
+                    if isinstance(root, ast.Name) and root.id in fresh_locals:
+                        continue
+                    kind = "shallow copy of the caller's object" if \
+                        "shallow-copy" in tags else "the caller's object itself"
+                    out.append((fn, a, kind))
+        elif node.kind == "call" and isinstance(a, ast.Call):
+            # mutator on non-fresh receiver
+            f = a.func
+            argtags = EMPTY
+            for x in list(a.args) + [k.value for k in a.keywords]:
+                argtags |= tf.tags(x, st)
+            if TAG not in argtags:
+                continue
+            if isinstance(f, ast.Attribute) and f.attr in (
+                    "append", "extend", "add", "update", "insert",
+                    "setdefault", "__setitem__", "put"):
+                root = f.value
+                while isinstance(root, (ast.Attribute, ast.Subscript)):
+                    root = root.value
+                if not (isinstance(root, ast.Name) and root.id in fresh_locals):
+                    out.append((fn, a, "the caller's object (container "
+                                "mutation)"))
+                continue
+            for callee in ctx.internal_targets(fn, a):
+                for p in callee.params():
+                    e = passed_expr(a, callee, p)
+                    if e is not None and TAG in tf.tags(e, st):
+                        out += escape_sinks(ctx, callee, p, depth + 1, seen,
+                                            extra_copies)
+    return out
+
+
+
+
+TRIVIAL_BUILTINS = {"isinstance", "len", "id", "type", "bool", "time.sleep",
+                    "print", "str", "repr"}
+
+
+def trivial_call(ctx: Context, fn: FunctionInfo, call: ast.AST) -> bool:
+    """Calls that cannot raise for the purposes of exception-flow rules:
+    constructors of internal classes whose __init__ only stores fields, and
+    a few total builtins."""
+    if not isinstance(call, ast.Call):
+        return False
+    names = ctx.names(fn, call)
+    if names & TRIVIAL_BUILTINS:
+        return True
+    for t in ctx.res.resolve_call(fn, call, count=False):
+        if t.kind == "class" and t.cls is not None:
+            init = t.cls.methods.get("__init__")
+            if init is None:
+                return not ctx.repo.external_bases(t.cls)
+            body = [s for s in init.node.body
+                    if not (isinstance(s, ast.Expr) and isinstance(
+                        s.value, ast.Constant))]
+            return all(
+                isinstance(s, (ast.Assign, ast.AnnAssign)) and not any(
+                    isinstance(x, (ast.Call, ast.Subscript))
+                    for x in ast.walk(s.value if s.value is not None else s))
+                for s in body)
+    return False
